@@ -138,7 +138,7 @@ def run(ctx):
            "for every combination of upgrade / Transfer-Encoding / Content-Length class / Expect the body reader is: raw stream for upgrade; chunk decoder when Transfer-Encoding is present; empty for no or zero length; a pre-read buffer for 1..=1024 without Expect; a length-limited reader otherwise",
            not bad, f.loc(start), None if not bad else "mismatches ((upgrade,TE,CL,expect), got, want): %s" % bad[:4])
     # Transfer-Encoding takes precedence: the Content-Length lookup happens only when no Transfer-Encoding header exists
-    te_disables_cl(ctx, facts, f)
+    shared.te_precedence(ctx, "C03.1", "TE-takes-precedence")
     # body_length is the Content-Length consulted above; EqualReader gets the same value
     eqn = [(bb, t) for bb, t in f.calls() if call_matches(t, r"EqualReader::<R>::new$")]
     for bb, t in eqn:
@@ -283,30 +283,6 @@ def finish_c03(ctx, facts, f, dom):
                 okz = bool(clears) and not any(x in r_ for x in fr.returns()) and not (set(clears) & fr.reach([bs[2]], unwind=False))
     ctx.ob("C03.4", "%s|drops-inner-at-eof" % fr.id, "the inner reader is released exactly when a read returned 0", okz, "%s:%d" % (fr.file, fr.line))
     return {}
-
-
-def te_disables_cl(ctx, facts, nr):
-    lookups = {}
-    for cl in facts.find_fns(r"^request::new_request::\{closure"):
-        for bb, t in cl.calls():
-            if call_matches(t, r"common::HeaderField::equiv$"):
-                lit = [c for c in arg_consts(cl, t) if isinstance(c, str)]
-                if lit:
-                    lookups[lit[0]] = cl.id
-    finds = [(bb, t) for bb, t in nr.calls() if call_matches(t, r"as std::iter::Iterator>::find::<|Iterator>?::find$")]
-    cl_find = [bb for bb, t in finds if nr.origin(t["args"][1])[0] == "agg" and lookups.get("Content-Length") == nr.origin(t["args"][1])[1]]
-    ok = False
-    for bb, t in nr.calls():
-        if call_matches(t, r"Option::<T>::is_some$|Option::<T>::is_none$") and t.get("target") is not None:
-            o = nr.origin(t["args"][0])
-            clo = [x for x in origin_walk(o) if x[0] == "agg" and x[1] == lookups.get("Transfer-Encoding")]
-            if origin_has_call(o, r"Iterator>?::find") and clo:
-                bs = bool_switch(nr, t["target"])
-                if bs and cl_find and bs[1] != bs[2]:
-                    absent_edge = bs[2] if t["name"] == "is_some" else bs[1]
-                    if all(nr.dominates(absent_edge, c, unwind=False) for c in cl_find):
-                        ok = True
-    ctx.ob("C03.1", "%s|TE-takes-precedence" % nr.id, "a Transfer-Encoding header takes precedence: Content-Length is looked at only when there is none", ok and bool(cl_find), "%s:%d" % (nr.file, nr.line))
 
 
 def bounded_read_sites(ctx, rule, g, bound_desc, is_bound):
